@@ -9,7 +9,7 @@ Local Open Scope N_scope.
 Record pkgpath := mkpkgpath { pp_short : str; pp_full : str }.
 (* PathBuf::push of a relative path *)
 Definition path_push (base p : str) : str :=
-  match List.rev base with
+  match frev base with
   | [] => p
   | 47 :: _ => base ++ p
   | _ => base ++ 47 :: p
